@@ -103,7 +103,7 @@ def check_c06(rr: dict, w, fkind: str) -> list[dict]:
             break
     # "all SERs but a final failing one say succeeded and pipeline_end says ok exactly when the run returned"
     for i, s in enumerate(sers):
-        is_last_failing = (not oc["ok"]) and n_started > 0 and i == n_started - 1
+        is_last_failing = (not oc["ok"]) and n_started > 0 and i == n_started - 1 and fkind != "transport_fault"
         want = "error" if is_last_failing else "succeeded"
         if s.get("status") != want:
             out.append(V("status", f"ser_status_{s.get('status')}_want_{want}/{fkind}", f"SER {i} of {len(sers)} status={s.get('status')} outcome ok={oc['ok']}"))
